@@ -105,6 +105,46 @@ func dispatch(dir string, code, n int, som byte) M {
 	return M{"fn": "dispatch", "dir": dir, "code": code, "len": n, "som": int(som), "out": out}
 }
 
+// dispatchHold: two different messages of one type through the dispatcher, the first result projected before and after
+// the second call (a dispatcher that hands out a shared instance per function code overwrites the first)
+func dispatchHold(r *rand.Rand, zero any, dir string) M {
+	t := reflect.TypeOf(zero)
+	mk := func() []byte {
+		msg := reflect.New(t).Elem()
+		walk(msg, func(name string, f reflect.Value) { genField(r, f, true) })
+		b, err := codec.Marshal(msg.Interface())
+		if err != nil {
+			return nil
+		}
+		return b
+	}
+	un := func(b []byte) (any, error) {
+		if dir == "req" {
+			return messages.UnmarshalRequest(b)
+		}
+		return messages.UnmarshalResponse(b)
+	}
+	rec := M{"fn": "hold", "type": t.Name(), "dir": dir, "first": M{"t": "none"}, "first_after": M{"t": "none"}}
+	if p, msg := guard(func() {
+		a, b := mk(), mk()
+		if a == nil || b == nil {
+			return
+		}
+		v1, err := un(a)
+		if err != nil || v1 == nil {
+			rec["first"] = M{"t": "err"}
+			rec["first_after"] = M{"t": "err"}
+			return
+		}
+		rec["first"] = M{"t": "ok", "v": projMsg(reflect.ValueOf(v1).Elem())}
+		un(b)
+		rec["first_after"] = M{"t": "ok", "v": projMsg(reflect.ValueOf(v1).Elem())}
+	}); p {
+		rec["first"] = M{"t": "panic", "msg": msg}
+	}
+	return rec
+}
+
 func runC05(o *opts) (*summary, error) {
 	w, err := newShardWriter(o.out, "codec", o.shards)
 	if err != nil {
@@ -141,6 +181,17 @@ func runC05(o *opts) (*summary, error) {
 
 	// dispatch: all 256 function codes x lengths 0..128 x protocol ids (only once: not zone dependent)
 	if o.extraArg("dispatch") == "1" {
+		// what a dispatcher returned for one message must not change when it is given the next message of the same type
+		for _, set := range []struct {
+			dir   string
+			types []any
+		}{{"req", requestTypes}, {"rsp", responseTypes}} {
+			for _, z := range set.types {
+				for k := 0; k < 3; k++ {
+					w.put(dispatchHold(rng, z, set.dir), "dispatch-hold", fmt.Sprintf("hold/%s/%d", reflect.TypeOf(z).Name(), k))
+				}
+			}
+		}
 		for _, dir := range []string{"req", "rsp"} {
 			for code := 0; code < 256; code++ {
 				for _, som := range []byte{0x17, 0x19, 0x00, 0xff} {
